@@ -152,6 +152,10 @@ pub enum Op {
     SetDrop(usize),
     // N-world: formula clients
     Formula(F, u64, u8),
+    /// a formula evaluated in the shared environment WITHOUT a common ordering: the parser numbers
+    /// its variables by first appearance, so the same id may carry different names in different
+    /// formulas (identity is by id; everything is judged by id)
+    FormulaOwnOrder(F, u64, u8),
     ReEval(usize),
     Convert(usize),
     /// `cancel` for formula clients: to_free_index of a symbol that is not a free variable of an
@@ -198,6 +202,7 @@ impl Op {
             Op::SetContains(..) => "set.contains".into(),
             Op::SetDrop(_) => "set.drop".into(),
             Op::Formula(..) => "formula.eval".into(),
+            Op::FormulaOwnOrder(..) => "formula.eval(own order)".into(),
             Op::ReEval(_) => "formula.re-eval".into(),
             Op::Convert(_) => "convert".into(),
             Op::FreeIndexPanic(_) => "formula.to_free_index(non-free)".into(),
@@ -405,6 +410,7 @@ pub fn gen_plan(rng: &mut Prng, property: &str, tier: &Tier) -> EnvPlan {
         (0..k).map(|_| rng.below(1 << 16)).collect()
     };
 
+    let ids_dense = !(property != "C19" && rng.chance(1, 3));
     let cross_env = rng.coin();
     // C19: a third of the runs are driven by set clients alone (no raw-API handle is kept alive)
     let sets_only = property == "C19" && rng.chance(1, 3);
@@ -521,7 +527,11 @@ pub fn gen_plan(rng: &mut Prng, property: &str, tier: &Tier) -> EnvPlan {
             2 => match rng.weighted(&[5, 2, 1, if faults.cancel { 1 } else { 0 }]) {
                 0 if !gen_cfg.pool.is_empty() => {
                     let f = fast::gen_formula(rng, &gen_cfg);
-                    Op::Formula(f, rng.next_u64(), rng.below(3) as u8)
+                    if ids_dense && rng.chance(1, 4) {
+                        Op::FormulaOwnOrder(f, rng.next_u64(), rng.below(3) as u8)
+                    } else {
+                        Op::Formula(f, rng.next_u64(), rng.below(3) as u8)
+                    }
                 }
                 1 => Op::ReEval(sel(rng)),
                 3 => Op::FreeIndexPanic(sel(rng)),
@@ -615,7 +625,7 @@ pub fn gen_plan(rng: &mut Prng, property: &str, tier: &Tier) -> EnvPlan {
         }
     }
 
-    let ids: Vec<usize> = if property != "C19" && !set_heavy && rng.chance(1, 3) {
+    let ids: Vec<usize> = if !ids_dense && !set_heavy {
         let mut v = Vec::new();
         let mut next = rng.below(5);
         for _ in 0..nvars + 2 {
@@ -2212,15 +2222,16 @@ impl<'p> Exec<'p, NWorld> {
     fn formula_step(&mut self, step_no: usize, step: &Step) -> Result<bool, Violation> {
         let opname = step.op.name();
         match &step.op {
-            Op::Formula(f, pseed, noise) => {
+            Op::Formula(f, pseed, noise) | Op::FormulaOwnOrder(f, pseed, noise) => {
+                let own_order = matches!(step.op, Op::FormulaOwnOrder(..));
                 let mut prng = Prng::new(*pseed);
                 let text = Printer::noisy(&mut prng, *noise).print(f);
-                let ordering = self.ordering();
+                let ordering: Option<Vec<NamedSymbol>> = if own_order { None } else { Some(self.ordering()) };
                 let env = Rc::clone(&self.env);
                 rsbdd::verif_hooks::set_budget(Some(STEP_TICK_BUDGET));
                 let shared = catch(|| {
                     let mut rd = BufReader::new(text.as_bytes());
-                    ParsedFormula::new_with_env(env, &mut rd, Some(ordering.clone())).map(|pf| {
+                    ParsedFormula::new_with_env(env, &mut rd, ordering.clone()).map(|pf| {
                         let r = pf.eval();
                         (pf, r)
                     })
@@ -2249,7 +2260,7 @@ impl<'p> Exec<'p, NWorld> {
                     rsbdd::verif_hooks::set_budget(Some(STEP_TICK_BUDGET));
                     let fresh = catch(|| {
                         let mut rd = BufReader::new(text.as_bytes());
-                        ParsedFormula::new(&mut rd, Some(ordering.clone())).map(|pf| pf.eval())
+                        ParsedFormula::new(&mut rd, ordering.clone()).map(|pf| pf.eval())
                     });
                     rsbdd::verif_hooks::set_budget(None);
                     match fresh {
@@ -2385,7 +2396,7 @@ pub fn plan_valid(plan: &EnvPlan) -> bool {
         && plan.names.len() >= plan.nvars
         && plan.steps.iter().all(|s| match &s.op {
             Op::Var(i) | Op::Infer(_, i) => *i < plan.nvars,
-            Op::Formula(f, _, _) => f.names_in_text_order().iter().all(|n| names.contains(n)),
+            Op::Formula(f, _, _) | Op::FormulaOwnOrder(f, _, _) => f.names_in_text_order().iter().all(|n| names.contains(n)),
             _ => true,
         })
 }
